@@ -50,13 +50,13 @@ package combinator
 //@   ghost_at call:Parse#1 when lastres[parsley.Error](2) != nil && (lastres[parsley.Error](2).Pos() > pos || !parsley.IsNotFound(lastres[parsley.Error](2))) && lastres[parsley.Error](2).Pos() > parsley.GhostBest :: parsley.GhostBest = lastres[parsley.Error](2).Pos()
 //@   assert_at call:SetError#1 [L-success;C06] parsley.GhostBest >= 0 ==> lastarg[parsley.Error](1) != nil && lastarg[parsley.Error](1).Pos() >= parsley.GhostBest
 //@   ensures  [L-failure;C06] n == nil && parsley.GhostBestOut >= 0 ==> err != nil && err.Pos() >= parsley.GhostBestOut
-//@   ensures  [cp-all;C01] same(cp, parsley.GhostCpAcc)
+//@   ensures  [cp-all;C01,C04] same(cp, parsley.GhostCpAcc)
 //@   ensures  [E5-first;C01,C04] n != nil ==> same(n, parsley.GhostLastNode)
 //@   ensures  [E5-none;C01,C04] n == nil ==> parsley.GhostLastNode == nil
 //@ loop 1 (k rangeindex, cp data.IntSet, err parsley.Error, notFoundErr parsley.Error)
 //@   invariant 0 <= k && k <= len(parsers)
 //@   invariant [first-wins;C01,C04] k >= 1 ==> parsley.GhostLastNode == nil
-//@   invariant [cp-all;C01] k >= 1 ==> same(cp, parsley.GhostCpAcc)
+//@   invariant [cp-all;C01,C04] k >= 1 ==> same(cp, parsley.GhostCpAcc)
 //@   invariant [L;C06] (err == nil ==> parsley.GhostBest == -1) && (err != nil ==> err.Pos() >= parsley.GhostBest)
 //@   invariant parsley.WfCtx(ctx) && parsley.WfCache(ctx) && parsley.InInput(ctx.Reader(), pos) && ghostIn(ctx, lrc, pos)
 //@   invariant data.Inv(cp) && errOK(ctx, err, pos) && errOK(ctx, notFoundErr, pos)
@@ -71,8 +71,8 @@ package combinator
 //@   ghost_at call:Parse#1 parsley.GhostLastCp = lastres[data.IntSet](1)
 //@   assert_at call:Union#1 [cp-operand;C01] same(lastarg[data.IntSet](1), parsley.GhostLastCp)
 //@   ghost_at call:Union#1 parsley.GhostCpAcc = lastres[data.IntSet](0)
-//@   ensures  [cp-all;C01] same(cp, parsley.GhostCpAcc)
-//@   assert_at call:AppendNode#1 [E4-merged;C01] same(lastarg[parsley.Node](1), parsley.GhostLastNode)
+//@   ensures  [cp-all;C01,C04] same(cp, parsley.GhostCpAcc)
+//@   assert_at call:AppendNode#1 [E4-merged;C01,C04] same(lastarg[parsley.Node](1), parsley.GhostLastNode)
 //@   ghost_at call:Parse#1 when lastres[parsley.Error](2) != nil && (lastres[parsley.Error](2).Pos() > pos || !parsley.IsNotFound(lastres[parsley.Error](2))) && lastres[parsley.Error](2).Pos() > parsley.GhostBest :: parsley.GhostBest = lastres[parsley.Error](2).Pos()
 //@   assert_at call:SetError#1 [L-success;C06] parsley.GhostBest >= 0 ==> lastarg[parsley.Error](1) != nil && lastarg[parsley.Error](1).Pos() >= parsley.GhostBest
 //@   ensures  [L-failure;C06] n == nil && parsley.GhostBestOut >= 0 ==> err != nil && err.Pos() >= parsley.GhostBestOut
@@ -81,7 +81,7 @@ package combinator
 //@   invariant parsley.WfCtx(ctx) && parsley.WfCache(ctx) && parsley.InInput(ctx.Reader(), pos) && ghostIn(ctx, lrc, pos)
 //@   invariant data.Inv(cp) && errOK(ctx, err, pos) && errOK(ctx, notFoundErr, pos) && resOK(ctx, res, pos)
 //@   invariant [PC1] k >= 1 && res == nil && err == nil && notFoundErr == nil ==> parsley.GhostCurtailed
-//@   invariant [cp-all;C01] k >= 1 ==> same(cp, parsley.GhostCpAcc)
+//@   invariant [cp-all;C01,C04] k >= 1 ==> same(cp, parsley.GhostCpAcc)
 //@   invariant [L;C06] (err == nil ==> parsley.GhostBest == -1) && (err != nil ==> err.Pos() >= parsley.GhostBest)
 
 //@ -- the same result, possibly as a list re-sliced to cut off its spare capacity
@@ -205,9 +205,9 @@ package combinator
 //@   ensures  [fixed] same(s.parserLookUp, old(s.parserLookUp)) && same(s.lenCheck, old(s.lenCheck)) && same(s.resultHandler, old(s.resultHandler)) && s.token == old(s.token) && same(s.interpreter, old(s.interpreter))
 //@   assert_at entry [sep] cap(s.nodes) == 0 || s.result == nil || !typeis[ast.NodeList](s.result) || array(s.result.(ast.NodeList)) != array(s.nodes)
 //@   logs combinator.(*sequence).parse
-//@   ensures  [next;C01,C02] ncalls() == 1 && callarg[int](1, 1) == depth+1 && callarg[*parsley.Context](1, 2) == ctx && callarg[parsley.Pos](1, 4) == node.ReaderPos()
-//@   ensures  [next-same-pos;C01,C02] node.ReaderPos() <= pos ==> same(callarg[data.IntMap](1, 3), lrc) && callarg[bool](1, 5) == merge
-//@   ensures  [next-consumed;C01,C02] node.ReaderPos() > pos ==> !callarg[bool](1, 5) && forall k int :: !dom(data.MapOf(callarg[data.IntMap](1, 3)), k)
+//@   ensures  [next;C01,C02,C04] ncalls() == 1 && callarg[int](1, 1) == depth+1 && callarg[*parsley.Context](1, 2) == ctx && callarg[parsley.Pos](1, 4) == node.ReaderPos()
+//@   ensures  [next-same-pos;C01,C02,C04] node.ReaderPos() <= pos ==> same(callarg[data.IntMap](1, 3), lrc) && callarg[bool](1, 5) == merge
+//@   ensures  [next-consumed;C01,C02,C04] node.ReaderPos() > pos ==> !callarg[bool](1, 5) && forall k int :: !dom(data.MapOf(callarg[data.IntMap](1, 3)), k)
 //@   requires [cp-merged;C01] merge ==> cpMerged(s, depth)
 //@   ensures  [cp-mono;C01] cpMono(s) && elemCpKept(s, depth+1)
 //@   requires [L;C06] seqErrOK(s)
@@ -272,7 +272,7 @@ package combinator
 //@ closure seqDefaultResultHandler$1(pos parsley.Pos, token string, nodes []parsley.Node, interp parsley.Interpreter) (r parsley.Node)
 //@   captures (returnSingle bool)
 //@   include combinator.SeqResultHandler.HandleResult
-//@   ensures [copy;C07] len(nodes) >= 2 || (len(nodes) == 1 && !returnSingle) ==> typeis[*ast.NonTerminalNode](r) && fresh(r.(*ast.NonTerminalNode)) && fresh(ast.ChildrenOf(r.(*ast.NonTerminalNode))) && len(ast.ChildrenOf(r.(*ast.NonTerminalNode))) == len(nodes) && forall k int :: 0 <= k && k < len(nodes) ==> same(ast.ChildrenOf(r.(*ast.NonTerminalNode))[k], nodes[k])
+//@   ensures [copy;C07,C01] len(nodes) >= 2 || (len(nodes) == 1 && !returnSingle) ==> typeis[*ast.NonTerminalNode](r) && fresh(r.(*ast.NonTerminalNode)) && fresh(ast.ChildrenOf(r.(*ast.NonTerminalNode))) && len(ast.ChildrenOf(r.(*ast.NonTerminalNode))) == len(nodes) && forall k int :: 0 <= k && k < len(nodes) ==> same(ast.ChildrenOf(r.(*ast.NonTerminalNode))[k], nodes[k])
 //@   ensures [span;C01] len(nodes) >= 1 ==> r.ReaderPos() == nodes[len(nodes)-1].ReaderPos()
 //@   ensures [empty;C01] len(nodes) == 0 ==> r.Pos() == pos && r.ReaderPos() == pos
 
